@@ -21,6 +21,8 @@ type randCfg struct {
 	steps     int           // sequential: operations per scenario; concurrent: operations per producer per round
 	producers int           // 0 = sequential
 	rounds    int           // concurrent: rounds (each ends at a quiescent point)
+	soak      time.Duration // concurrent: keep adding rounds until the pool has lived this long
+	noRecord  bool          // no trace wanted: keep counters only
 	reorgFreq time.Duration
 	lifetime  time.Duration
 }
@@ -79,7 +81,7 @@ func (s *scenario) randBody(r *rand.Rand, parent *block) []txKey {
 	prev := s.h.prev
 	s.h.mu.Unlock()
 	var body []txKey
-	for k := r.Intn(4); k > 0; k-- {
+	for k := r.Intn(3); k > 0; k-- {
 		a := 1 + r.Intn(u.NA)
 		n := int(nonce[a-1])
 		if n > u.MaxNonce {
@@ -98,8 +100,22 @@ func (s *scenario) randBody(r *rand.Rand, parent *block) []txKey {
 // headEvent extends the chain (drop = 0) or replaces its last `drop` blocks by one new block
 func (s *scenario) headEvent(r *rand.Rand, drop int) {
 	s.cmu.Lock()
+	// keep the nonce universe alive: when the chain has consumed (almost) every nonce, reorganise deep
+	used := 0
+	for _, n := range s.headBlock().nonce {
+		used += int(n)
+	}
+	if used >= s.cfg.u.NA*(s.cfg.u.MaxNonce+1)-3 && r.Intn(4) != 0 {
+		drop = len(s.path) - r.Intn(2)
+		if drop > 60 {
+			drop = 60 // reset() gives up on reorgs deeper than 64 blocks
+		}
+	}
 	if drop > len(s.path) {
 		drop = len(s.path)
+	}
+	if drop < 0 {
+		drop = 0
 	}
 	s.path = s.path[:len(s.path)-drop]
 	parent := s.headBlock()
@@ -253,7 +269,7 @@ func runScenario(cfg randCfg, seed int64, stats *randStats, smu *sync.Mutex) (*h
 	for i := range initBal {
 		initBal[i] = cfg.maxBal
 	}
-	h := newHarness(cfg.u, poolOpts{lim: cfg.lim, initBal: initBal, reorgFreq: cfg.reorgFreq, lifetime: cfg.lifetime})
+	h := newHarness(cfg.u, poolOpts{lim: cfg.lim, initBal: initBal, reorgFreq: cfg.reorgFreq, lifetime: cfg.lifetime, dropNoop: true, noRecord: cfg.noRecord})
 	s := &scenario{cfg: cfg, h: h, gen: h.chain.head, stats: stats, smu: smu}
 	defer h.stop()
 	if cfg.producers == 0 {
@@ -267,7 +283,8 @@ func runScenario(cfg randCfg, seed int64, stats *randStats, smu *sync.Mutex) (*h
 		}
 		s.quiesce("the last operation")
 	} else {
-		for round := 0; round < cfg.rounds; round++ {
+		t0 := time.Now()
+		for round := 0; round < cfg.rounds || time.Since(t0) < cfg.soak; round++ {
 			var wg sync.WaitGroup
 			for p := 0; p < cfg.producers; p++ {
 				wg.Add(1)
@@ -324,11 +341,12 @@ func cmdRandom(args []string) {
 	life := fs.Duration("lifetime", 120*time.Millisecond, "")
 	evict := fs.Duration("evict", 20*time.Millisecond, "")
 	traceBudget := fs.Int("trace-events", 20000, "stop writing trace events after this many (whole scenarios)")
+	soak := fs.Duration("soak", 0, "concurrent mode: minimum life time of every pool")
 	fs.Parse(args)
 	setEvictionInterval(*evict)
 	u := newUniverse(*na, *maxNonce, *maxPrice)
 	cfg := randCfg{u: u, lim: limits{*as, *gs, *aq, *gq, *bump}, maxBal: *maxPrice, steps: *steps,
-		producers: *producers, rounds: *rounds, reorgFreq: *freq, lifetime: *life}
+		producers: *producers, rounds: *rounds, reorgFreq: *freq, lifetime: *life, soak: *soak, noRecord: *out == "" || *traceBudget == 0}
 	stats := &randStats{Events: map[string]int{}, AddResults: map[string]int{}}
 	var smu, wmu sync.Mutex
 	var bw *bufio.Writer
@@ -350,20 +368,13 @@ func cmdRandom(args []string) {
 				h, evs, initBal := runScenario(cfg, *seed*100003+int64(sc), stats, &smu)
 				smu.Lock()
 				stats.Scenarios++
-				for _, e := range evs {
-					stats.Events[e.Op]++
-					stats.Removed += len(e.Removed)
+				h.mu.Lock()
+				for op, n := range h.evCount {
+					stats.Events[op] += n
 				}
-				inRun := false
-				for _, e := range evs {
-					if e.Op == "reorgbegin" {
-						inRun = true
-					} else if e.Op == "reorg" {
-						inRun = false
-					} else if e.Op == "add" && inRun {
-						stats.Reinjected++
-					}
-				}
+				stats.Removed += h.nRemoved
+				stats.Reinjected += h.nReinjected
+				h.mu.Unlock()
 				for _, v := range h.violations() {
 					if len(viols) < 20 {
 						v.Detail = map[string]interface{}{"scenario": sc, "seed": *seed, "detail": v.Detail}
